@@ -278,19 +278,46 @@ func instrIndex(ins ssa.Instruction) int {
 	return -1
 }
 
-// mayPassBetween reports whether instruction k can execute after a and before b on some path.
+// mayPassBetween reports whether instruction k can execute after a and before b on some path
+// that does not execute a again (a re-execution of a starts a new value class, so only kills on
+// a-free paths from a to b matter; a dominates b).
 func (f *FA) mayPassBetween(a, k, b ssa.Instruction) bool {
-	f.blockReach()
-	after := func(x, y ssa.Instruction) bool { // y can execute after x
-		if x.Block() == y.Block() {
-			if instrIndex(y) > instrIndex(x) {
-				return true
+	A := a.Block()
+	reachAvoidA := func(from *ssa.BasicBlock) map[*ssa.BasicBlock]bool {
+		seen := map[*ssa.BasicBlock]bool{}
+		var st []*ssa.BasicBlock
+		st = append(st, from.Succs...)
+		for len(st) > 0 {
+			x := st[len(st)-1]
+			st = st[:len(st)-1]
+			if seen[x] || x == A {
+				continue
 			}
-			return f.reach[x.Block()][x.Block()] // via a cycle
+			seen[x] = true
+			st = append(st, x.Succs...)
 		}
-		return f.reach[x.Block()][y.Block()]
+		return seen
 	}
-	return after(a, k) && after(k, b)
+	ia, ik, ib := instrIndex(a), instrIndex(k), instrIndex(b)
+	if k.Block() == A {
+		if ik <= ia {
+			return false // reaching k again means re-executing a first
+		}
+		if b.Block() == A {
+			return ib > ik
+		}
+		return reachAvoidA(A)[b.Block()]
+	}
+	if !reachAvoidA(A)[k.Block()] {
+		return false
+	}
+	if b.Block() == A {
+		return false // b follows a in A: getting there from k re-executes a
+	}
+	if b.Block() == k.Block() && ib > ik {
+		return true
+	}
+	return reachAvoidA(k.Block())[b.Block()]
 }
 
 // canonBase gives a canonical string for an SSA value used as the base of a field address.
@@ -614,8 +641,21 @@ func (f *FA) vname(v ssa.Value) string {
 }
 
 // phiLF handles integer φ-nodes: the induction-variable rule of DESIGN 3.2.
+func (f *FA) liveEdges(x *ssa.Phi) []ssa.Value {
+	var out []ssa.Value
+	for i, e := range x.Edges {
+		if !f.Dead[x.Block().Preds[i]] {
+			out = append(out, e)
+		}
+	}
+	return out
+}
+
 func (f *FA) phiLF(x *ssa.Phi, tlo, thi int64) LF {
 	key := "phi:" + x.Name()
+	if live := f.liveEdges(x); len(live) == 1 && live[0] != ssa.Value(x) {
+		return f.LFOf(live[0])
+	}
 	lo, hi := tlo, thi
 	var inits []int64
 	okUp, okDown := true, true
@@ -871,6 +911,10 @@ func (f *FA) sliceLen0(v ssa.Value) LF {
 			}
 		}
 	case *ssa.Phi:
+		// a φ with a single live incoming edge is that value
+		if live := f.liveEdges(x); len(live) == 1 && live[0] != ssa.Value(x) {
+			return f.SliceLen(live[0])
+		}
 		// non-loop φ of slices: interval join of the incoming lengths
 		if !sliceDependsOn(x, x, map[ssa.Value]bool{}) {
 			lo, hi := int64(INF), int64(-INF)
